@@ -72,34 +72,94 @@ def field_aliases(fn):
     return al
 
 
-def check_done(chk, prog, f):
-    """O1: release typestate of self's fields in a done function"""
-    cfg = nullness.prepared_cfg(f, NORETURN)
-    al = field_aliases(f)
-    relsite = {}
+def address_sets(fn):
+    """local decl id -> set of fields F whose address &(self->F) is stored into the local (a pointer, or any element of a
+    local array of pointers): `*P` / `*(P[i])` then stands for one of those fields"""
+    res = {}
+    for n in walk(fn.body):
+        pairs = []
+        if n.get("k") == "assign" and n.get("op") == "=":
+            pairs.append((n["ch"][0], n["ch"][1]))
+        if n.get("k") == "decl":
+            for d in n.get("decls", ()):
+                if d.get("init") is not None:
+                    pairs.append(({"k": "ref", "d": d["d"], "rk": "local"}, d["init"]))
+        for l, r in pairs:
+            r = X.strip(r)
+            if r is None or r.get("k") != "un" or r.get("op") != "&":
+                continue
+            fld = self_field(r["ch"][0])
+            if fld is None:
+                continue
+            b = X.strip(l)
+            while b is not None and b.get("k") == "index":
+                b = X.strip(b["ch"][0])
+            if b is not None and b.get("k") == "ref" and b.get("rk") == "local":
+                res.setdefault(b["d"], set()).add(fld)
+    return res
 
-    def released_field(call):
-        args = call["ch"][1:]
-        if not args:
-            return None
-        fld = self_field(args[0])
-        if fld is None:
-            s = X.strip(args[0])
-            if s.get("k") == "ref" and s.get("d") in al:
-                fld = al[s["d"]]
-        return fld
+
+def denoted_fields(e, state, addr):
+    """the fields of self the expression may denote: self->F, a local that currently holds self->F's value (state fact
+    ("alias", local, F)), or a dereference of a pointer / pointer-array element holding &(self->F)"""
+    s = X.strip(e)
+    if s is None:
+        return set()
+    f = self_field(s)
+    if f is not None:
+        return {f}
+    if s.get("k") == "ref" and s.get("rk") == "local":
+        return {x[2] for x in state if x[0] == "alias" and x[1] == s["d"]}
+    if s.get("k") == "un" and s.get("op") == "*":
+        b = X.strip(s["ch"][0])
+        while b is not None and b.get("k") == "index":
+            b = X.strip(b["ch"][0])
+        if b is not None and b.get("k") == "ref" and b.get("d") in addr:
+            return set(addr[b["d"]])
+    if s.get("k") == "index":
+        b = X.strip(s["ch"][0])
+        if b is not None and b.get("k") == "ref" and b.get("d") in addr and not s.get("tp_is_ptrptr"):
+            # part[n] used directly as the field pointer (arrays of the field values are not supported: treated as unknown)
+            return set()
+    return set()
+
+
+def check_done(chk, prog, f):
+    """O1: release typestate of self's fields in a done function.  A field may be released through the field expression
+    itself, through a local holding its value, or through a pointer to it; the reset must follow on every path."""
+    cfg = nullness.prepared_cfg(f, NORETURN)
+    addr = address_sets(f)
+    relsite = {}
 
     def transfer(state, n, blk):
         k = n.get("k")
         if k == "call" and own.release_kind(n) in ("free", "del"):
-            fld = released_field(n)
-            if fld is not None:
-                relsite.setdefault(fld, n)
-                return state | {("rel", fld)}
+            args = n["ch"][1:]
+            if args:
+                flds = denoted_fields(args[0], state, addr)
+                st = set(state)
+                for fld in flds:
+                    relsite.setdefault(fld, n)
+                    st.add(("rel", fld))
+                return frozenset(st)
         if k == "assign" and n.get("op") == "=":
-            fld = self_field(n["ch"][0])
-            if fld is not None:
-                return frozenset(x for x in state if x != ("rel", fld))
+            l = X.strip(n["ch"][0])
+            flds = denoted_fields(l, frozenset(), addr)
+            if flds:
+                return frozenset(x for x in state if not (x[0] == "rel" and x[1] in flds))
+            if l.get("k") == "ref" and l.get("rk") == "local":
+                st = set(x for x in state if not (x[0] == "alias" and x[1] == l["d"]))
+                for fld in denoted_fields(n["ch"][1], state, addr):
+                    st.add(("alias", l["d"], fld))
+                return frozenset(st)
+        if k == "decl":
+            st = set(state)
+            for dcl in n.get("decls", ()):
+                st = set(x for x in st if not (x[0] == "alias" and x[1] == dcl["d"]))
+                if dcl.get("init") is not None:
+                    for fld in denoted_fields(dcl["init"], state, addr):
+                        st.add(("alias", dcl["d"], fld))
+            return frozenset(st)
         return state
     bad = {}
 
@@ -311,10 +371,16 @@ def run(tier="quick"):
         check_del(chk, prog, f)
     # O5
     n5 = 0
+    from ..listrules import unit_closure
+    seen5 = set()
     for slot in ("remove", "remove_at"):
         for f in classinfo.functions_in_slot(prog, slot):
             if f.unit.name in ("linked_list.c", "dlinked_list.c"):
-                n5 += check_remove(chk, prog, f)
+                # the removal function and the helpers it calls (an extracted unlink/release helper holds the deletion)
+                for g in unit_closure(f):
+                    if g.name not in seen5:
+                        seen5.add(g.name)
+                        n5 += check_remove(chk, prog, g)
     # O6 / O7 on every function of the anchored units
     nfun = 0
     for f in prog.all_functions():
